@@ -8,6 +8,9 @@ fn main() {
     }
     let prop = args[1].as_str();
     quiet_panics();
+    if args[2] == "--scale" {
+        engine::c04::scale_child(&args[3], args[4].parse().unwrap());
+    }
     if args[2] == "--replay" {
         let body = std::fs::read_to_string(&args[3]).unwrap_or_else(|e| machinery(&format!("{e}")));
         let v: serde_json::Value = serde_json::from_str(&body).unwrap_or_else(|e| machinery(&format!("{e}")));
